@@ -340,7 +340,7 @@ func (fr *Frame) libModel(fn *ssa.Function, full string, args []Val, st *State, 
 			return done(tv(c.fresh("trylock", SBool)))
 		}
 		if !strings.HasPrefix(full, "(*sync.WaitGroup).") && len(args) > 0 {
-			fr.lockOp(m, args[0], st)
+			fr.lockOp(m, args[0], st, cur, site)
 		}
 		return done(Val{})
 	case strings.HasPrefix(full, "(*sync.Map)."):
